@@ -125,6 +125,18 @@ def check_state(desc, sc, pool, excl, bases, res, maxn, sh=0, ns=1):
                             continue
                         if 'Q' not in fs and len(pg) != len(set(pg)):
                             res.add_violation(ID, run.viol('duplicate-result', dict(inp0, how='pathlib'), 'no path twice', [os.path.relpath(x, root) for x in pg][:40]))
+    # an absolute pattern followed by relative ones in the same call (root_dir differs from the cwd)
+    esc = G.escape(root)
+    for rel in (['*/a'], ['a/*'], ['*/*', 'a'], ['**/a'], ['b', '*/b'], ['.h/*']):
+        for first in ('a', '*', 'a/*'):
+            for fs in ('GE', 'GEQ'):
+                pats_ = [esc + '/' + first] + rel
+                want = [x for x in gl(esc + '/' + first, fs + 'Q', root)]
+                for p in rel:
+                    want += gl(p, fs + 'Q', root)
+                inp0 = {'tree': desc, 'inclusions': ['<ROOT>/' + first] + rel, 'exclusions': [], 'flags': fs, 'how': 'abs-then-rel'}
+                got = gl(pats_, fs, root)
+                compare(res, inp0, [x.replace(root, '<ROOT>') for x in got], [x.replace(root, '<ROOT>') for x in want], fs)
     # exclusions alone: nothing, or everything-except with NEGATEALL
     for exs in ([excl[0]], excl[:2]):
         for fs in bases[:2]:
@@ -182,6 +194,15 @@ def replay(v):
         model = fsx.Model(state)
         root = sc.root
         inc, exs, fs, how = inp['inclusions'], inp['exclusions'], inp['flags'], inp['how']
+        if how == 'abs-then-rel':
+            pats_ = [p.replace('<ROOT>', G.escape(root)) for p in inc]
+            want = []
+            for p in pats_:
+                want += gl(p, fs + 'Q', root)
+            got = gl(pats_, fs, root)
+            r = run.ChunkResult()
+            compare(r, inp, [x.replace(root, '<ROOT>') for x in got], [x.replace(root, '<ROOT>') for x in want], fs)
+            return {'violates': bool(r.viol) or bool(r.known), 'observed': [x.replace(root, '<ROOT>') for x in got][:40]}
         if how == 'exclude=':
             got = gl(inc, fs, root, exclude=exs or None)
         elif how == 'inline':
